@@ -78,6 +78,13 @@ Theorem C03_format_implies_signature : forall expected allowed cs w m f,
 Proof. exact format_implies_signature. Qed.
 Print Assumptions C03_format_implies_signature.
 
+(* ... and a decision reported BEFORE close (after the reads cs) already carries the signature of the bytes read so far *)
+Theorem C03_early_format_implies_signature : forall expected allowed cs w m f,
+  read_so_far expected allowed cs w -> cw_format w = Ok (Some m) -> s_name m = fmt_name f -> f <> F_raw ->
+  sigb f (concat cs) = true.
+Proof. exact early_format_implies_signature. Qed.
+Print Assumptions C03_early_format_implies_signature.
+
 (* static formats (C01 static refinement): format_match of the closed inspector IS the signature predicate *)
 Theorem C03_static_match_is_signature : forall f cs, is_static f = true -> cmatch (fst (run f cs)) = sigb f (concat cs).
 Proof. exact closed_static_match. Qed.
